@@ -47,6 +47,13 @@ CONFS = [None, {'is_color': False}, {'tower': True}, {'vt': 'valueerror'}, {'ski
          {'vt': 'valueerror', 'skip': ['aa.bb.cc.aa', 'bb.cc']}]
 
 
+INVALID_CONF = len(CONFS)     # configuration index standing for an object that is not a BeartypeConf at all
+
+
+def _skips_of(ci):
+    return list((CONFS[ci] or {}).get('skip', [])) if ci is not None and ci < len(CONFS) else []
+
+
 def tiers(tier):
     if tier == 'thorough':
         return {'runs': 600000, 'wall': 600, 'det_runs': 20, 'chunks_per_job': 4}
@@ -173,6 +180,11 @@ def generate(rng, run, tier):
         # path hook arrives (drawn last: the registration history is what it would be without them)
         for _ in range(rng.randint(1, 5)):
             hist.insert(rng.randint(0, len(hist)), {'op': 'import', 'name': rng.choice(IMPORTABLE)})
+    for op in hist:
+        # fault: the configuration argument is not a configuration (every entry point, block entries included); the call must
+        # raise and change nothing
+        if 'conf' in op and rng.random() < 0.03:
+            op['conf'] = INVALID_CONF
     return {'hist': hist}
 
 
@@ -190,9 +202,11 @@ class Model:
         return isinstance(n, str) and bool(n) and all(p.isidentifier() for p in n.split('.'))
 
     def _skip_names(self, ci):
-        return list((CONFS[ci] or {}).get('skip', []))
+        return _skips_of(ci)
 
     def op_all(self, ci):
+        if ci == INVALID_CONF:
+            return 'invalid'
         if self.all_conf is not None and self.all_conf != ci:
             return 'conflict'
         self.skipped.update(self._skip_names(ci))
@@ -200,6 +214,8 @@ class Model:
         return 'ok'
 
     def op_pkgs(self, names, ci):
+        if ci == INVALID_CONF:
+            return 'invalid'
         if not names:
             return 'invalid'
         for n in names:
@@ -214,6 +230,8 @@ class Model:
         return 'ok'
 
     def op_enter(self, ci):
+        if ci == INVALID_CONF:
+            return 'invalid'
         added = [s for s in self._skip_names(ci) if s not in self.skipped]
         self.stack.append((self.all_conf, ci, added))
         self.skipped.update(added)
@@ -277,6 +295,7 @@ def execute(case):
     model = Model()
     confs = [ops.build_conf(c) for c in CONFS]
     hookable = [make_conf_hookable(c) for c in confs]
+    confs.append('not a configuration')
     cms = []
     probes = {k: 0 for k in PROBES}
     viol = None
@@ -348,7 +367,8 @@ def execute(case):
                 exp = model.op_enter(op['conf'])
                 cm = claw.beartyping(conf=confs[op['conf']])
                 st, e = real(cm.__enter__)
-                cms.append(cm)
+                if exp != 'invalid' or st == 'ok':
+                    cms.append(cm)
                 max_depth = max(max_depth, len(cms))
             elif k == 'exit':
                 if not cms:
@@ -385,7 +405,7 @@ def execute(case):
                 viol = ('unexpected_failure', 'op %d %r: model expects success, got %s %s' % (i, op, st, str(e)[:200]),
                         'unexpected_failure:' + k + ':' + st)
                 break
-            if (CONFS[op.get('conf', 0)] or {}).get('skip'):
+            if _skips_of(op.get('conf', 0)):
                 probes['skip_lists'] += 1
             # observable state vs model
             bad = None
@@ -436,7 +456,7 @@ def _why(prefix, exp):
         tags.append('after_failed_call')
     if last['op'] == 'exit':
         tags.append('block_exit')
-    if (CONFS[last.get('conf', 0)] or {}).get('skip'):
+    if _skips_of(last.get('conf', 0)):
         tags.append('skipconf')
     return '+'.join(tags)
 
